@@ -88,7 +88,7 @@ def _degenerate(trees) -> bool:
         o = M.to_sympy(t)
         if _free_names(o) != M.names_of(t):
             return True
-        if isinstance(o, sympy.Basic) and any(isinstance(n, sympy.Pow) and n.args[1] == 0 for n in sympy.preorder_traversal(o)):
+        if isinstance(o, sympy.Basic) and any(isinstance(n, sympy.Pow) and n.args[1].is_zero for n in sympy.preorder_traversal(o)):
             return True
     return False
 
@@ -696,7 +696,7 @@ def oracle_gate_names(r):
     what = f"{fam} via {r['wrap']}"
     exp = _expected_names(r)
     got = set(cirq.parameter_names(obj))
-    if got != exp:
+    if got != exp and not _degenerate(trees):
         raise Violation(f"{what}: parameter_names {sorted(got)} but the symbolic slots hold {sorted(exp)}")
     ip = cirq.is_parameterized(obj)
     if exp and not ip:
@@ -1287,7 +1287,7 @@ def oracle_circuit_resolve(r):
     exp = set()
     for t in CG.circuit_trees(r["c"]):
         exp |= _free_names(M.to_sympy(t))
-    if set(cirq.parameter_names(c_sym)) != exp:
+    if set(cirq.parameter_names(c_sym)) != exp and not _degenerate(CG.circuit_trees(r["c"])):
         raise Violation(f"parameter_names(circuit)={sorted(cirq.parameter_names(c_sym))}, the slots hold {sorted(exp)}")
     # unrelated symbol: equal circuit back
     same = cirq.resolve_parameters(c_sym, {ZZ: 0.25})
@@ -1421,6 +1421,23 @@ KNOWN_FEATURES = {
 #   FC10c 1-qubit CircuitOperation unitary ignored param_resolver (a82c794), FC10e Sweep.__add__ unpacked ZipLongest (c8b2a6d),
 #   FC10f flatten skipped CircuitOperation (184e225), FC10g eject_z on symbolic iSWAP/FSim (e6ad139),
 #   PauliInteractionGate JSON exponent (d16af11, found with C11).
+
+def uncovered():
+    """Rows of the shared gate table with numeric parameters that have no symbolic slot here, and resolvable classes outside it."""
+    G._lazy()
+    out = []
+    for name, f in G.FAMILIES.items():
+        if name in CG.SLOTS:
+            continue
+        if name in ("Matrix1", "Matrix2", "Matrix3", "QuditMatrix", "QuditMatrix2", "GPI", "GPI2", "IonqMS", "IonqZZ", "Depolarize",
+                    "Depolarize2", "AsymDepolarize", "BitFlip", "PhaseFlip", "PhaseDamp", "AmplitudeDamp", "GenAmplitudeDamp"):
+            out.append(f"{name}: constructor rejects sympy parameters (no symbolic slot exists)")
+    out += ["PauliSum / PauliSumExponential / LinearDict / PeriodicValue _resolve_parameters_ (not gate-table rows)",
+            "cirq_google CouplerPulse / AnalogDetune* / InternalGate symbolic arguments",
+            "QasmUGate and other qasm_output helpers", "Circuit(tags=...) resolution of circuit-level tags",
+            "CircuitOperation.repeat_until with symbolic conditions"]
+    return out
+
 
 SUBCHECKS = [
     SubCheck("expr_value", _expr_value_case(), oracle_expr_value, quick=2400, thorough=80000, shards_quick=4, shards_thorough=16,
